@@ -41,6 +41,9 @@ pub struct MErr {
     /// true if a `filter`-style rejection (whose `found` is not the token at the span start) is among
     /// the tied failures (known finding D3)
     pub filter_like: bool,
+    /// true if a user-constructed error (whose `found` and span are the closure's business, A7) was
+    /// re-described by a label: `found` is still the one the closure chose
+    pub user_built: bool,
     /// true if produced by a failed `not` (C06 does not judge those)
     pub from_not: bool,
     /// true if the failure happened inside a nested input (its span is in the inner input's terms: A6)
@@ -61,6 +64,7 @@ impl MErr {
             ctxs: vec![],
             alt_ctxs: vec![],
             filter_like: false,
+            user_built: false,
             from_not: false,
             from_nested: false,
             parts: 1,
@@ -101,6 +105,7 @@ impl MErr {
             }
         }
         self.filter_like |= o.filter_like;
+        self.user_built |= o.user_built;
         self.from_not |= o.from_not;
         self.from_nested |= o.from_nested;
         self.parts += o.parts;
@@ -985,6 +990,7 @@ impl<'a> Model<'a> {
                             self.stats.label_on_success = true;
                         }
                         e.exp = [Exp::Label(label.clone())].into_iter().collect();
+                        e.user_built |= !e.alt_users.is_empty();
                         e.user = None;
                         e.alt_users.clear();
                     } else if g.p.ok && e.pos > p {
